@@ -27,7 +27,8 @@ func (h *Hub) HandleConnectionClosed(connection api.ShipConnectionInterface, han
 	// in between would be removed
 	h.muxCon.Lock()
 	existingC, exists := h.connections[remoteSki]
-	if exists && existingC.DataHandler() == connection.DataHandler() {
+	isRegistered := exists && existingC.DataHandler() == connection.DataHandler()
+	if isRegistered {
 		delete(h.connections, remoteSki)
 	}
 	h.muxCon.Unlock()
@@ -35,6 +36,12 @@ func (h *Hub) HandleConnectionClosed(connection api.ShipConnectionInterface, han
 	// connection close was after a completed handshake, so we can reset the attetmpt counter
 	if exists && handshakeCompleted {
 		h.removeConnectionAttemptCounter(connection.RemoteSKI())
+	}
+
+	// another connection to this SKI is registered (double connection, or the remote
+	// already reconnected), so the remote service is not disconnected
+	if exists && !isRegistered {
+		return
 	}
 
 	h.hubReader.RemoteSKIDisconnected(connection.RemoteSKI())
